@@ -83,6 +83,7 @@ static int be_socket_flush(struct bufferevent *, short, enum bufferevent_flush_m
 static int be_socket_ctrl(struct bufferevent *, enum bufferevent_ctrl_op, union bufferevent_ctrl_data *);
 
 static void be_socket_setfd(struct bufferevent *, evutil_socket_t);
+static void bufferevent_writecb(evutil_socket_t, short, void *);
 
 const struct bufferevent_ops bufferevent_ops_socket = {
 	"socket",
@@ -163,6 +164,17 @@ bufferevent_readcb(evutil_socket_t fd, short event, void *arg)
 		 * timeout, since a read has occurred */
 		what |= BEV_EVENT_TIMEOUT;
 		goto error;
+	}
+
+	if (bufev_p->connecting) {
+		/* The read event can become active together with (and run
+		 * before) the write event that is waiting for the connect to
+		 * finish.  Report the outcome of the connect first: nothing
+		 * must be read before BEV_EVENT_CONNECTED. */
+		bufferevent_writecb(fd, EV_WRITE, arg);
+		if (bufev_p->connecting ||
+		    !event_pending(&bufev->ev_read, EV_READ, NULL))
+			goto done;
 	}
 
 	input = bufev->input;
